@@ -2,7 +2,7 @@
 """Generates MANIFEST.json from the table below (kept in one place so it stays valid)."""
 import json, subprocess
 
-HOOK_COMMITS = ["fd2a26b"]
+HOOK_COMMITS = ["fd2a26b", "7715f60", "41101d8"]
 
 # id -> (category, technique, text, note)
 CLAIMED = {}
